@@ -916,6 +916,19 @@ def _arg_mentions_field(body, t, field):
 
 # ------------------------------------------------------------------ C11.R3 + C17.R4
 
+def call_reaches(crate, body, t, rx, prefix="export::"):
+    """does the call `t` in `body` reach (directly or through functions of the exporter) a call matching rx"""
+    if fn_matches(t, rx):
+        return True
+    for hb in crate.call_targets(body, t, ("TS",)):
+        if not hb.path.startswith(prefix):
+            continue
+        reach, _ = crate.reachable_bodies([hb.path], no_impls_of=("TS",))
+        if any(fn_matches(t2, rx) for bx in crate.bodies if bx.path in reach and bx.path.startswith(prefix) for _, t2 in bx.calls()):
+            return True
+    return False
+
+
 def path_agreement_rule(crate, prop):
     r = Result("C11.R3", "the path handed to export_to::<T> derives from <T as TS>::output_path() of the same T (joined to the base directory) behind its `Some` check; export_to is entered only from export_into and TS::export; imports and Dependency read the same function")
     callers = _callers(crate)
@@ -970,9 +983,13 @@ def path_agreement_rule(crate, prop):
         r.fail(prop, "edge-missing default_output_path -> output_path", "default_output_path no longer derives from <Self as TS>::output_path()", dop.file() if dop else None, dop.line() if dop else None)
     else:
         r.inst(edge="TS::default_output_path -> <Self as TS>::output_path", present=True)
-    for nm in ("Dependency::from_ty", "export::generate_imports"):
+    es0 = crate.body("export::export_to_string")
+    imp_fns = sorted({hb.path for blk, t in (es0.calls() if es0 is not None else []) if not es0.is_cleanup(blk) and "WithoutGenerics" in ((t.get("fn") or {}).get("args") or [""])[0]
+                      for hb in crate.call_targets(es0, t, ("TS",)) if hb.path.startswith("export::")}) or ["export::generate_imports"]
+    for nm in ["Dependency::from_ty"] + imp_fns:
         b = crate.body(nm)
-        ok = b is not None and any(fn_matches(t, r"TS::output_path$") and (t["fn"].get("args") or [None])[0] == "T" for _, t in b.calls())
+        grp = [x for x in crate.bodies if x.path in crate.owned_by(nm)] if b is not None else []
+        ok = b is not None and any(fn_matches(t, r"TS::output_path$") and (t["fn"].get("args") or [None])[0] in ("T", (x.raw.get("generic_params") or ["T"])[0]) for x in (grp or [b]) for _, t in x.calls())
         r.inst(edge="%s -> <T as TS>::output_path" % nm, present=ok)
         if not ok:
             r.fail(prop, "edge-missing %s -> output_path" % nm, "%s does not read <T as TS>::output_path()" % nm, b.file() if b else None, b.line() if b else None)
@@ -1012,7 +1029,8 @@ def path_agreement_rule(crate, prop):
     # export_to_string: declaration generated only after imports succeeded (which checks exportability of WithoutGenerics)
     es = crate.body("export::export_to_string")
     if es is not None:
-        gi = [(b, t) for b, t in es.calls() if fn_matches(t, r"export::generate_imports$")]
+        is_imports = lambda t: fn_matches(t, r"export::generate_imports$") or ("WithoutGenerics" in ((t.get("fn") or {}).get("args") or [""])[0] and "Result<" in (t.get("dst_ty") or "") and (t.get("fn") or {}).get("path", "").startswith("export::"))
+        gi = [(b, t) for b, t in es.calls() if is_imports(t)]
         # the calls through which T::decl() is reached (directly, or inside a helper of the exporter)
         def reaches_decl(t):
             if fn_matches(t, r"TS::decl$"):
@@ -1024,12 +1042,12 @@ def path_agreement_rule(crate, prop):
                 if any(fn_matches(t2, r"TS::decl$") for bx in crate.bodies if bx.path in reach and bx.path.startswith("export::") for _, t2 in bx.calls()):
                     return True
             return False
-        gd = [(b, t) for b, t in es.calls() if not es.is_cleanup(b) and not fn_matches(t, r"export::generate_imports$") and reaches_decl(t)]
+        gd = [(b, t) for b, t in es.calls() if not es.is_cleanup(b) and not is_imports(t) and reaches_decl(t)]
         if not gd:
             r.fail(prop, "anchor-missing declaration call in export_to_string", "no call in export_to_string reaches T::decl()", es.file(), es.line())
         ok = not gd
         for e in try_edges(es):
-            if e["arg"] is not None and any(o["kind"] == "call" and fn_matches(o["t"], r"export::generate_imports$") for o in origins(es, e["arg"], through_try=False)):
+            if e["arg"] is not None and any(o["kind"] == "call" and is_imports(o["t"]) for o in origins(es, e["arg"], through_try=False)):
                 if gd and all(es.dominates(e["cont"], b) for b, _ in gd):
                     ok = True
         r.inst(fn=es.path, check="generate_decl dominated by generate_imports success", ok=ok)
@@ -1300,6 +1318,8 @@ def type_arg_discipline_rule(crate, prop, rule="C11.R8"):
             plain = re.match(r"^(Self|[A-Z]\w?)$", a0) is not None
             concrete = re.match(r"^(&)?std::", a0) is not None or a0.startswith("&")
             exc = EXC.get((re.sub(r"::\{closure#\d+\}", "", p0), p))
+            if exc is None and p0 == "export::export_to_string" and p.startswith("export::") and call_reaches(crate, b, t, r"TS::dependencies$") and not call_reaches(crate, b, t, r"TS::decl$"):
+                exc = "<T as TS>::WithoutGenerics"       # whatever the function that computes the imports is called
             ok = plain or concrete or (exc is not None and a0 == exc) or ALSO.get((re.sub(r"::\{closure#\d+\}", "", p0), p)) == a0
             r.inst(fn=p0, callee=p, type_argument=a0, ok=ok, exception=bool(exc))
             if not ok:
